@@ -271,6 +271,38 @@ def run(ck, F, prefix='C11'):
         K.factory(f)
         K.finish_cover()
         K.finish_partial()
+    # what the client calls is the name as found in the most derived class: a member of the same name declared further
+    # down hides the factory's, and is then the entry point
+    if prefix == 'C11':
+        R0 = ck.rule('C11.entry-points', 'in type_factory and in every class derived from it (the Lexicon the client holds), a member '
+                     'named like the qualified-type constructor is that constructor, or hands its own qualifier set and type, unchanged, '
+                     'to it on every path: no wrapper filters the set or judges the operand before the constructor has normalised it', floor=2)
+        TF = 'ipr::impl::type_factory'
+        S0 = Sym(F, opaque=lambda fid: fid == GQ or contracts.default_opaque(F)(fid), max_depth=48)
+        for cls in sorted(c for c in F.rec if c == TF or F.derives_from(c, TF)):
+            bad = []
+            mine = [g for g in F.fns_in(cls) if g['name'] == f['name'] and g['id'] != GQ]
+            for g in mine:
+                if not g.get('body'):
+                    continue
+                qi = [i for i, p in enumerate(g['params']) if p['t'].replace('const ', '').strip() == 'ipr::Qualifiers']
+                ti = [i for i, p in enumerate(g['params']) if p['t'].replace(' ', '') == 'constipr::Type&']
+                try:
+                    paths = S0.run(g['id'])
+                except Unsupported as e:
+                    raise AnalysisBroken(f'{g["id"]}: {e}')
+                for st, k, v in paths:
+                    t = v
+                    while isinstance(t, tuple) and t and t[0] in ('deref', 'addr'):
+                        t = t[1]
+                    if k == 'return' and isinstance(t, tuple) and t[:2] == ('call', GQ) and len(qi) == 1 and len(ti) == 1 \
+                            and list(t[3]) == [('param', qi[0]), ('param', ti[0])]:
+                        continue
+                    what = f'throws {v}' if k == 'throw' else 'answers `' + contracts.render(v, st, {})[:110] + '`'
+                    bad.append(f'{contracts.short(g["id"])} {what} when {contracts.render_conds(st.conds, st, {})[:90] or "called"}')
+            ck.check(R0, contracts.short(cls), not bad, f'{cls} declares its own {f["name"]}, which is what a client holding a {contracts.short(cls)} '
+                     'calls, and it does not simply hand the request on: ' + '; '.join(bad[:3]), loc=(mine[0]['loc'] if mine else F.rec[cls]['loc']))
+
     # who may construct
     makers = set()
     for g in F.fn.values():
